@@ -353,10 +353,13 @@ func (self *RemoteJobManager) sendJob(shellCmd string, argv []string, envs map[s
 
 	util.EnterCriticalSection()
 	defer util.ExitCriticalSection()
+	// The sentinel is removed only once the submit command has returned, so
+	// that a job whose submission was interrupted is submitted again on restart.
+	output, err := cmd.CombinedOutput()
 	if err := metadata.remove(QueuedLocally); err != nil {
 		util.LogError(err, "jobmngr", "Error removing queue sentinel file.")
 	}
-	if output, err := cmd.CombinedOutput(); err != nil {
+	if err != nil {
 		metadata.WriteErrorString(
 			"jobcmd error (" + err.Error() + "):\n" + string(output))
 	} else {
